@@ -54,7 +54,7 @@ def expected : List Gen.FnFact := [
     unprot := [".codeDump", ".run", ".treeDump", "compilePkgs", "loadImports", "newLookup", "parse", "tokenize"],
     stages := ["tokenize", "parse", "loadImports", "compile (imports)", "run (imports)", "compile", "run"], bareErr := 0 },
   { name := "VM.Load", recovers := false,
-    unprot := [".Replace", ".codeDump", ".run", ".treeDump", "compilePkgs"],
+    unprot := [".codeDump", ".run", ".treeDump", "compilePkgs"],
     stages := ["load", "compile", "run"], bareErr := 0 },
   { name := "VM.Call", recovers := false, unprot := [".Func", ".Get"], stages := [], bareErr := 0 },
   { name := "VM.Func", recovers := true, unprot := [".btErr"], stages := [], bareErr := 0 },
@@ -71,7 +71,7 @@ def expected : List Gen.FnFact := [
   { name := "loadFile", recovers := false, unprot := ["loadImports", "rawLoadFile", "treeSort"], stages := ["loadFile"], bareErr := 0 },
   { name := "loadPackage", recovers := false, unprot := ["loadImports", "rawLoadPackage", "treeSort"], stages := ["loadPackage"], bareErr := 0 },
   { name := "loadImports", recovers := false,
-    unprot := [".Append", ".Delete", ".Index", ".Unquote", "rawLoadPackage", "treeSort"], stages := ["loadPackage"], bareErr := 0 },
+    unprot := [".Append", "rawLoadPackage", "treeSort"], stages := ["loadPackage"], bareErr := 0 },
   { name := "rawLoadFile", recovers := false, unprot := ["checkConstraint", "parse", "tokenize"],
     stages := ["ReadFile", "constraint", "tokenize", "parse"], bareErr := 0 },
   { name := "rawLoadPackage", recovers := false, unprot := [".Append", "joinFiles", "rawLoadFile", "symAtPos"],
